@@ -520,6 +520,10 @@ pub struct RemoteLane {
     pub received: Vec<(u64, Req)>,
     /// the harness dropped the remote's channel halves at this instant
     pub closed: Option<u64>,
+    /// only the remote's reader of the runtime's output was dropped (the outgoing half of the connection failed)
+    pub closed_reader: Option<u64>,
+    /// only the remote's writer towards the runtime was dropped (the incoming half failed)
+    pub closed_writer: Option<u64>,
     pub decode_error: Option<String>,
     identity: Uuid,
     node: String,
@@ -742,6 +746,31 @@ impl RemoteLane {
         }
     }
 
+    /// Only the outgoing half of the connection fails: the remote stops reading, events still flow.
+    pub fn close_reader(&mut self) {
+        if self.closed.is_none() && self.closed_reader.is_none() {
+            self.closed_reader = Some(self.clock.tick());
+            self.input.close();
+        }
+    }
+
+    /// Only the incoming half fails: the runtime sees the end of its input.
+    pub fn close_writer(&mut self) {
+        if self.closed.is_none() && self.closed_writer.is_none() {
+            self.closed_writer = Some(self.clock.tick());
+            self.output.close();
+        }
+    }
+
+    /// The runtime closed its output in the middle of a frame.
+    pub fn truncated_input(&self) -> Option<usize> {
+        if self.input.eof && !self.input.inbox.is_empty() {
+            Some(self.input.inbox.len())
+        } else {
+            None
+        }
+    }
+
     pub fn outbox_len(&self) -> usize {
         self.output.outbox.len()
     }
@@ -782,11 +811,24 @@ pub struct Consumer {
     pub frames: Vec<(u64, Note)>,
     pub sent: Vec<Sent>,
     pub dropped: Option<u64>,
+    /// only the notification reader was dropped (the consumer goes on writing commands)
+    pub reader_dropped: Option<u64>,
+    /// latest read attempt that found nothing while no byte had ever arrived: up to that instant the
+    /// runtime had written nothing at all to this consumer
+    pub last_empty_read: Option<u64>,
     pub eof: Option<u64>,
     pub decode_error: Option<String>,
 }
 
 impl Consumer {
+    /// The consumer stops listening but keeps its command channel.
+    pub fn drop_reader(&mut self) {
+        if self.dropped.is_none() && self.reader_dropped.is_none() {
+            self.reader_dropped = Some(self.clock.tick());
+            self.input.close();
+        }
+    }
+
     pub fn write(&mut self, w: &W) {
         if self.dropped.is_some() || !self.output.is_open() {
             return;
@@ -809,7 +851,13 @@ impl Consumer {
     }
 
     pub fn read(&mut self, n: usize) -> usize {
+        if self.dropped.is_some() || self.reader_dropped.is_some() {
+            return 0;
+        }
         let got = self.input.read(n);
+        if got == 0 && !self.input.eof && self.frames.is_empty() && self.input.inbox.is_empty() {
+            self.last_empty_read = Some(self.clock.tick());
+        }
         self.decode();
         if self.input.eof && self.eof.is_none() {
             self.eof = Some(self.clock.tick());
@@ -1010,6 +1058,8 @@ impl Rt {
             emitted: vec![],
             received: vec![],
             closed: None,
+            closed_reader: None,
+            closed_writer: None,
             decode_error: None,
             identity,
             node: NODE.to_string(),
@@ -1120,6 +1170,8 @@ impl Rt {
             frames: vec![],
             sent: vec![],
             dropped: None,
+            reader_dropped: None,
+            last_empty_read: None,
             eof: None,
             decode_error: None,
         });
